@@ -50,7 +50,7 @@ DIGITS = ["alt", [["lit", d] for d in "0123456789"]]
 @st.composite
 def template_specs(draw: Any) -> dict[str, Any]:
     """Hand-shaped families that make the repair operators fire."""
-    fam = draw(st.sampled_from(["crep", "eq", "gen", "crep_nested", "parity", "nested_same", "nested_same"]))
+    fam = draw(st.sampled_from(["crep", "eq", "gen", "crep_nested", "parity", "nested_same", "nested_same", "crep_outside", "crep_outside"]))
     lo = draw(st.integers(0, 2))
     item = draw(st.sampled_from([
         ["alt", [["lit", "a"], ["seq", [["lit", "b"], ["opt", ["nt", "item"]]]]]],
@@ -84,6 +84,27 @@ def template_specs(draw: Any) -> dict[str, Any]:
                  ["len", ["nt", "d"]], ["d", ["alt", [["lit", c] for c in draw(st.sampled_from(["123", "0123", "2468", "19"]))]]],
                  ["item", item]]
         cons: list[str] = []
+    elif fam == "crep_outside":
+        # the repeated symbol also occurs OUTSIDE the computed repetition: in front of it (a structurally equal
+        # sibling), behind it, or below another symbol that crossover can fill with a repeated element
+        simple = draw(st.sampled_from([["alt", [["lit", "a"], ["lit", "b"]]], ["alt", [["lit", "a"], ["lit", "b"], ["lit", "c"], ["lit", "d"]]], item]))
+        shape = draw(st.sampled_from(["before", "after", "trailer", "both"]))
+        rep = ["crep", ["nt", "item"], "int(<len>)"]
+        if shape == "before":
+            body = [["nt", "len"], ["nt", "item"], ["lit", ";"], rep]
+        elif shape == "after":
+            body = [["nt", "len"], ["lit", ";"], rep, ["lit", "!"], ["nt", "item"]]
+        elif shape == "trailer":
+            body = [["nt", "len"], ["lit", ";"], rep, ["nt", "trailer"]]
+        else:
+            body = [["nt", "len"], ["nt", "item"], ["lit", ";"], rep, ["nt", "trailer"]]
+        rules = [["start", ["seq", body]], ["len", ["alt", [["lit", c] for c in draw(st.sampled_from(["1234", "0123", "2468", "34"]))]]],
+                 ["item", simple], ["trailer", ["seq", [["lit", "!"], ["nt", "item"]]]]]
+        if shape in ("before", "after"):
+            rules = rules[:-1]
+        # constraints that keep the search going, so that crossover moves <item> subtrees between the places
+        cons = [draw(st.sampled_from(["str(<start>)[2:5] == 'abc'", "str(<start>).count('a') >= 3", "str(<start>).endswith('b')",
+                                      "len(set(str(<start>)[2:])) >= 4", "int(<len>) >= 3", "str(<start>)[2:4] == 'ba'"]))]
     elif fam == "crep_nested":
         rules = [["start", ["rep", ["nt", "rec"], 1, 3]],
                  ["rec", ["seq", [["nt", "len"], ["crep", ["seq", [["nt", "item"], ["opt", ["lit", ","]]]], "int(<len>)"], ["lit", ";"]]]],
@@ -142,8 +163,13 @@ def search_cases(draw: Any) -> dict[str, Any]:
         "elitism_rate": draw(st.sampled_from([0.1, 0.5])),
         "random_seed": draw(st.integers(0, 10**6)),
     }
-    return {"kind": "search", "spec": spec, "settings": settings, "gens": draw(st.integers(1, 6)),
-            "desired": draw(st.integers(2, 8))}
+    gens = draw(st.integers(1, 6))
+    if spec.get("family") == "crep_outside":
+        # crossover followed by the repair of the repetition needs a search that lasts
+        settings.update(population_size=draw(st.sampled_from([15, 30])), max_nodes=draw(st.sampled_from([30, 80])),
+                        crossover_rate=draw(st.sampled_from([0.8, 1.0])))
+        gens = draw(st.integers(8, 20))
+    return {"kind": "search", "spec": spec, "settings": settings, "gens": gens, "desired": draw(st.integers(2, 8))}
 
 
 @st.composite
